@@ -159,7 +159,9 @@ pub fn generate(g: &mut Gen, thorough: bool) {
     for _ in 0..(if thorough { 2000 } else { 200 }) {
         let special = [0.0, -0.0, f64::NAN, f64::INFINITY, 1e-300, 100.0, 2020.0, -7.5];
         let pick = |g: &mut Gen, lo: f64, hi: f64| if g.rng.chance(1, 5) { *g.rng.pick(&special) } else { g.rng.uniform(lo, hi) };
-        let v = [pick(g, -3.2, 3.2), pick(g, -1.6, 1.6), pick(g, -100.0, 9000.0), pick(g, 1990.0, 2030.0)];
+        // (angles are kept as they are: two turns either way are angles like any other)
+        let wide = g.rng.chance(1, 3);
+        let v = [if wide { pick(g, -12.6, 12.6) } else { pick(g, -3.2, 3.2) }, if wide { pick(g, -6.3, 6.3) } else { pick(g, -1.6, 1.6) }, pick(g, -100.0, 9000.0), pick(g, 1990.0, 2030.0)];
         g.push(format!("S_C19U\t{}", v.iter().map(|x| crate::wire::fbits(*x)).collect::<Vec<_>>().join(",")), "oracle-tuple-unit-conversions", true);
     }
 }
